@@ -7,7 +7,7 @@ from concurrent.futures import ThreadPoolExecutor
 VERIF = os.path.dirname(os.path.dirname(os.path.abspath(__file__)))
 WT = os.environ.get("VERIF_SEEDS_WT", "/var/tmp/verif-seed-wt/harmless")
 TARGET = os.environ.get("VERIF_SEEDS_TARGET", "/var/tmp/verif-replay-target-seeds2")
-PROPS = ["C01", "C02", "C03", "C05", "C06", "C07", "C08", "C09", "C10", "C12", "C13", "C14", "C15", "C16", "C17", "C19", "C20"]
+PROPS = ["C01", "C02", "C03", "C04", "C05", "C06", "C07", "C08", "C09", "C10", "C12", "C13", "C14", "C15", "C16", "C17", "C19", "C20"]
 if os.environ.get("VERIF_HARMLESS_PROPS"): PROPS = os.environ["VERIF_HARMLESS_PROPS"].split(",")   # developer option: only these properties' checks
 only = sys.argv[1:]
 res = {}
